@@ -77,7 +77,7 @@ seed, repo, secs, sb_rc, sbtb_rc = sys.argv[1:]
 doms = ["buffer", "packer", "huffman", "packet6", "packet7", "snap", "teehist", "demo", "demohl", "datafile", "map",
         "browse", "gamenet", "recv", "snapmgr", "snapmgrc", "conn6", "conn7", "net"]
 NOT_COVERED = {
-    "huffman": "operations that print the C++ reference's answer (rd, rc) and the hash sweeps; the reference itself is a stand-in",
+    "huffman": "operations that print the C++ reference's answer (rd, rc), the hash sweeps, the whole-table walks tiefreq/repr (time); the reference itself is a stand-in",
     "snap": "pair/sweep (they consult the C++ snapshot reference through FFI)",
     "teehist": "`file` with a fragmentation other than whole (socket pair + writer thread: Miri reports the blocking read as a deadlock), bulk forms sweep/all2",
     "datafile": "the real zlib (C behind FFI) — replaced for the whole crate graph by a pure-Rust inflate (stub-zlib-minimal, a port of the driver's decoder); sweeps not run",
